@@ -336,7 +336,7 @@ func (s *c15Schema) toAST() *sast.Schema {
 // schema generator
 
 var c15AttrPool = []string{"a", "b", "n", "s", "e", "set", "rec", "opt", "a", "b", "n", "s", "if", "has space", "", "é", "a.b", "__tag:k", "k"}
-var c15TagKeys = []string{"k", "t", "", "x y"}
+var c15TagKeys = []string{"k", "t", "", "x y", "context.key"}
 var c15Strings = []string{"k", "t", "", "x y", "a", "abc", "*", "10.0.0.1", "1.5"}
 
 func c15GenType(r *mon.Rand, depth int, entNames []string) *c15Type {
